@@ -143,6 +143,8 @@ def one_history(args):
                 kind = rng.choice(['same', 'same', 'same', 'size', 'delete', 'touch'])
                 if n == 'sub/Manifest' and kind == 'delete':
                     kind = 'same'
+                if n == 'sub/Manifest' and kind == 'same' and rng.random() < 0.35:
+                    kind = 'revert'
                 # mtime relative to the previous TIMESTAMP
                 d = rng.choice([-3600.0, -1.0, 0.0, 0.001, 0.5, 0.999, 1.0, 60.0, 3 * 3600.0, 6 * 3600.0, 12 * 3600.0,
                                 _Clock.now - prev - 1])
@@ -153,6 +155,22 @@ def one_history(args):
                 nn = 'new%d' % rnd
                 ops[nn] = ('add', rng.choice([-5.0, 0.0, 0.5, 100.0]))
                 names.append(nn)
+            if rng.random() < 0.2:
+                # a directory ADDED with old modification times (unpacked from an archive, rsync -t) that brings
+                # its own Manifest along - stale for one of its files (same size, other content)
+                dn = 'pkg%d' % rnd
+                for root in (A, B):
+                    os.mkdir(os.path.join(root, dn))
+                    for fn, data in (('h1', b'shipped-1'), ('h2', b'shipped-2')):
+                        with open(os.path.join(root, dn, fn), 'wb') as f:
+                            f.write(data)
+                    with open(os.path.join(root, dn, 'Manifest'), 'wb') as f:
+                        f.write(b'DATA h1 9 SHA1 ' + hashlib.sha1(b'shipped-1').hexdigest().encode() + b'\n'
+                                + b'DATA h2 9 SHA1 ' + hashlib.sha1(b'shipped-X').hexdigest().encode() + b'\n')
+                    for fn in ('h1', 'h2', 'Manifest'):
+                        t = prev - rng.choice([5, 3600, 5 * DAY])
+                        os.utime(os.path.join(root, dn, fn), (t, t))
+                names += [dn + '/h1', dn + '/h2']
             flist = {}
             pending_mid_prev = list(pending_mid)
             for n, (kind, d) in ops.items():
@@ -167,6 +185,15 @@ def one_history(args):
                         old = open(p, 'rb').read()      # another digest on the first DIST line, same size
                         i = old.index(b' SHA1 ') + 6
                         open(p, 'wb').write(old[:i] + (b'b' if old[i:i + 1] == b'a' else b'a') + old[i + 1:])
+                    elif kind == 'revert' and n == 'sub/Manifest':
+                        # "reverted to an older revision": the digest of one DATA line changed (same size), the
+                        # file it names is untouched
+                        old = open(p, 'rb').read()
+                        j = old.find(b'DATA ')
+                        if j >= 0:
+                            i = old.index(b' SHA1 ', j) + 6
+                            old = old[:i] + (b'0' if old[i:i + 1] != b'0' else b'1') + old[i + 1:]
+                        open(p, 'wb').write(old)
                     elif kind == 'size' and n == 'sub/Manifest':
                         open(p, 'ab').write(b'DIST y-%d.tar 1 SHA1 ' % rnd + b'c' * 40 + b'\n')
                     elif kind == 'same':
@@ -191,13 +218,18 @@ def one_history(args):
                 else:
                     dmt, sz = 0, -1
                 rec_sz = ents_inc.get(n, (None,))[0]
-                flist[n] = {'name': n, 'modified': bool(kind in ('same', 'size', 'touch') or mid),
+                flist[n] = {'name': n, 'modified': bool(kind in ('same', 'size', 'touch', 'revert') or mid),
                             'dmt': max(min(dmt, 2000000000), -2000000000),
                             'sizediff': bool(exists and rec_sz is not None and rec_sz != sz),
                             'added': bool(exists and rec_sz is None), 'deleted': bool(not exists and rec_sz is not None),
                             'stale_before': bool(n in stale_before and n not in pending_mid_prev),
                             'same': True, 'true': True}
             pending_mid = []
+            if rng.random() < 0.3:
+                # a partial update (of sub/ only) on both replicas first: it must leave the TIMESTAMP alone,
+                # or the files modified elsewhere since the last whole-tree update would be skipped below
+                for root in (A, B):
+                    gem.run_cli(['update', '--hashes', 'SHA1', os.path.join(root, 'sub')])
             # the incremental update, with an optional modification of an already hashed file
             inject = rng.random() < 0.4
             state = {'n': 0, 'done': False, 'seen': []}
